@@ -110,8 +110,8 @@ def run_case(run, drv, case_seed):
         for comps, data in files:
             fname = name if single else comps[-1]
             fname = fname.split("/")[-1] if isinstance(fname, str) else fname
-            if fname in ("", ".", ".."):
-                continue
+            if fname in ("", ".", "..") or len(fname.encode("utf8")) > 255 or "\0" in fname:
+                continue        # no such file can exist, so there is no candidate to offer
             write_tree(os.path.join(search, f"c{cands}"), [(fname, data)])
             cands += 1
         os.makedirs(search, exist_ok=True)
